@@ -315,6 +315,10 @@ theorem inv_xstep {s : State} (inv : Inv s) (op : XOp) (safe : op.nsSafe s) : In
         next k p => exact inv_setNamespace inv k p safe.1 safe.2
     · next k j => exact inv_heap inv (setAllParametersA_pres _ _ _ (inv.wf j))
     · next k j => exact inv_heap inv (setParametersA_pres _ _ _ (inv.wf j))
+    · next k j =>
+      obtain ⟨p1, p2, _, _, p5, _⟩ := cloneAll_spec (s.lists k) s.heap (inv.wf k)
+      have i2 := inv_update inv p1 j p2 (by rw [names_eq_of_map_get p5]; exact inv.names k)
+      exact ⟨i2.wf, i2.ok, i2.names⟩
 
 /-- a history all of whose `setNamespace` steps are guarded -/
 def SafeRun : State → List XOp → Prop
@@ -650,6 +654,21 @@ theorem clauseXAssign_sound (n : Nat) {s : State} (inv : Inv s) (op : XOp) :
       obtain ⟨rfl, hh⟩ := e.2 x hx
       simp only [c, hx, Out.ofErr, hh, Bool.false_eq_true, if_false, beq_self_eq_true, Bool.true_and]
       exact unchanged_of (fun _ => rfl) (fun _ _ => rfl)
+  | _ => rfl
+
+theorem clauseXOwnerCopy_sound (n : Nat) {s : State} (inv : Inv s) (op : XOp) :
+    clauseXOwnerCopy n s op (xstep s op).2.out (xstep s op).1 = true := by
+  cases op with
+  | apCopy k j =>
+    obtain ⟨_, _, p3, p4, p5, p6⟩ := cloneAll_spec (s.lists k) s.heap (inv.wf k)
+    simp only [clauseXOwnerCopy, xstep, beq_self_eq_true, Bool.true_and, Bool.and_eq_true, if_true,
+      List.all_eq_true, List.mem_range, Bool.or_eq_true, beq_iff_eq, sameObjs, State.setList, State.withHeap]
+    refine ⟨⟨⟨?_, trivial⟩, fun r _ => ?_⟩, fun i hi => (p6 i hi).symm⟩
+    · exact freshWith_of (by simpa [State.setList, State.withHeap] using p5)
+        (by simpa [State.setList, State.withHeap] using p3) (by simpa [State.setList, State.withHeap] using p4)
+    · by_cases hr : r = j
+      · exact Or.inl hr
+      · exact Or.inr (by simp [hr])
   | _ => rfl
 
 theorem xstep_fired_none (s : State) (op : XOp) (nb : ∀ o, op ≠ .base o) : (xstep s op).2.fired = none := by
